@@ -205,7 +205,11 @@ func (x *xl) simple(s ast.Stmt) ([]string, error) {
 				}
 				if len(vs.Values) == 0 && x.w.dom && domKind(o.Type()) != "" && domKind(o.Type()) != "any" {
 					x.optVars[o] = true
-					lines = append(lines, fmt.Sprintf("let %s := none", x.nameOf(o)))
+					vt, err := x.varLeanType(o.(*types.Var))
+					if err != nil {
+						return nil, x.errf(s, "%v", err)
+					}
+					lines = append(lines, fmt.Sprintf("let %s : %s := none", x.nameOf(o), vt))
 				} else if len(vs.Values) == len(vs.Names) && x.w.dom && domKind(o.Type()) != "" {
 					if x.nullable(vs.Values[i]) {
 						x.optVars[o] = true
@@ -304,6 +308,10 @@ func (x *xl) block(stmts []ast.Stmt, k *cont) ([]string, error) {
 	var lines []string
 	for i, s := range stmts {
 		rest := stmts[i+1:]
+		if x.w.dom && x.declThenAssign(s, rest) {
+			// `var v T` directly followed by `v = e`: the same as `v := e` (v is not nil-able on that account)
+			continue
+		}
 		if c, ok := isPanicStmt(x.p.info, s); ok {
 			b, _, err := x.exprs(c.Args)
 			if err != nil {
@@ -320,6 +328,16 @@ func (x *xl) block(stmts []ast.Stmt, k *cont) ([]string, error) {
 			}
 			return append(lines, more...), nil
 		case *ast.ReturnStmt:
+			if x.recvAcc {
+				var rid *ast.Ident
+				if len(y.Results) == 1 {
+					rid, _ = y.Results[0].(*ast.Ident)
+				}
+				if rid == nil || x.p.info.Uses[rid] != x.acc {
+					return nil, x.errf(s, "a method with Acc $recv must return its receiver")
+				}
+				return append(lines, k.ret(x.nameOf(x.acc))), nil
+			}
 			if len(y.Results) != len(x.results) {
 				return nil, x.errf(s, "return with %d values (function has %d results)", len(y.Results), len(x.results))
 			}
@@ -558,6 +576,9 @@ func (x *xl) loopVars(nodes []ast.Node, before token.Pos, extraOutside map[types
 					switch l2 := l.(type) {
 					case *ast.IndexExpr:
 						mark(l2.X)
+						if s3, ok := l2.X.(*ast.SelectorExpr); ok {
+							mark(s3.X) // c.children[k] = v
+						}
 					case *ast.SelectorExpr:
 						mark(l2.X)
 					case *ast.StarExpr:
@@ -574,6 +595,10 @@ func (x *xl) loopVars(nodes []ast.Node, before token.Pos, extraOutside map[types
 				}
 			case *ast.IncDecStmt:
 				mark(y.X)
+			case *ast.UnaryExpr:
+				if y.Op == token.AND && x.w.dom {
+					mark(y.X) // `&v` handed to a callee's accumulator parameter
+				}
 			case *ast.RangeStmt:
 				if y.Tok == token.ASSIGN {
 					mark(y.Key)
@@ -667,7 +692,7 @@ func (x *xl) loop(s ast.Stmt, rest []ast.Stmt, k *cont) ([]string, bool, error) 
 	} else {
 		body = rs.Body
 		nodes = []ast.Node{rs.Body}
-		if _, ok := x.typeOf(rs.X).Underlying().(*types.Map); ok && x.w.dom && domKind(x.typeOf(rs.X)) == "cont" {
+		if _, ok := x.typeOf(rs.X).Underlying().(*types.Map); ok && x.w.dom && (domKind(x.typeOf(rs.X)) == "cont" || domKind(x.typeOf(rs.X)) == "leafmap") {
 			isMapRange = true
 		}
 		if rs.Key != nil && !isMapRange {
@@ -758,7 +783,9 @@ func (x *xl) loop(s ast.Stmt, rest []ast.Stmt, k *cont) ([]string, bool, error) 
 		}
 		lines = append(lines, b...)
 		var et string
-		if isMapRange {
+		if isMapRange && domKind(x.typeOf(rs.X)) == "leafmap" {
+			et = "(String × GoDom.Leaf)"
+		} else if isMapRange {
 			et = "(String × Node)"
 		} else {
 			et, err = x.w.leanType(x.typeOf(rs.X).Underlying().(*types.Slice).Elem())
@@ -1006,12 +1033,18 @@ func (x *xl) impure2(n ast.Node) bool {
 }
 
 func (w *xlWorld) translateFunc(repo string, p *xlPkg, f *xlFunc, fd *ast.FuncDecl) (string, error) {
+	if f.Dispatch != "" {
+		return w.translateDispatch(p, f)
+	}
 	fn := p.info.Defs[fd.Name].(*types.Func)
 	sig := fn.Type().(*types.Signature)
 	domMode := w.dom && f.External == ""
+	xlPlainMode = domMode && f.Plain
+	defer func() { xlPlainMode = false }()
 	x := &xl{w: w, p: p, f: f, fd: fd, names: map[types.Object]string{}, used: map[string]bool{}, flat: map[string]string{},
 		opaque: map[string]string{}, touched: map[string]bool{}, optVars: map[types.Object]bool{}, paramObjs: map[types.Object]bool{},
-		inGroup: map[*types.Func]bool{}, dispatch: map[string]string{}}
+		inGroup: map[*types.Func]bool{}, dispatch: map[string]string{},
+		mutated: map[types.Object]bool{}, accAlias: map[types.Object]bool{}}
 	if !domMode {
 		// the plain subset of translate.go
 		saved := w.dom
@@ -1028,7 +1061,14 @@ func (w *xlWorld) translateFunc(repo string, p *xlPkg, f *xlFunc, fd *ast.FuncDe
 		x.paramObjs[v] = true
 		var t string
 		var err error
-		if f.Acc != "" && v.Name() == f.Acc {
+		if f.Acc == "$recv" && v == sig.Recv() {
+			// the method mutates its own receiver and returns it: the receiver is the threaded value
+			if k := domKind(v.Type()); !domMode || (k != "list" && k != "cont") || sig.Results().Len() != 1 || domKind(sig.Results().At(0).Type()) != k {
+				return fmt.Errorf("Acc $recv needs a list / container builder receiver and that builder as the single result")
+			}
+			x.acc, x.recvAcc = v, true
+			t, err = w.leanType(v.Type())
+		} else if f.Acc != "" && v.Name() == f.Acc {
 			pt, ok := v.Type().Underlying().(*types.Pointer)
 			if !ok {
 				return fmt.Errorf("accumulator %s is not a pointer", f.Acc)
@@ -1063,13 +1103,33 @@ func (w *xlWorld) translateFunc(repo string, p *xlPkg, f *xlFunc, fd *ast.FuncDe
 			x.recv = r
 		} else if err := addParam(r); err != nil {
 			return "", err
+		} else {
+			// `$0` in fuel expressions = the (non-flattened) receiver
+			x.goParamNames, x.leanParamNames = []string{"$0", r.Name()}, []string{"$0", params[0].name}
 		}
 	}
+	paramVars := []*types.Var{}
 	for i := 0; i < sig.Params().Len(); i++ {
-		if err := addParam(sig.Params().At(i)); err != nil {
+		paramVars = append(paramVars, sig.Params().At(i))
+	}
+	resultTuple := sig.Results()
+	bodyList := fd.Body.List
+	if f.Curried {
+		// `func F(a) func(b) T { return func(b) T { body } }` ↦ F a b := ⟦body⟧
+		lit, lsig, err := x.curriedLit(fd)
+		if err != nil {
 			return "", err
 		}
-		x.goParamNames = append(x.goParamNames, sig.Params().At(i).Name())
+		for i := 0; i < lsig.Params().Len(); i++ {
+			paramVars = append(paramVars, lsig.Params().At(i))
+		}
+		resultTuple, bodyList = lsig.Results(), lit.Body.List
+	}
+	for _, pv := range paramVars {
+		if err := addParam(pv); err != nil {
+			return "", err
+		}
+		x.goParamNames = append(x.goParamNames, pv.Name())
 		x.leanParamNames = append(x.leanParamNames, params[len(params)-1].name)
 	}
 	if len(null) > 0 {
@@ -1081,11 +1141,14 @@ func (w *xlWorld) translateFunc(repo string, p *xlPkg, f *xlFunc, fd *ast.FuncDe
 	if sig.Variadic() && !domMode {
 		return "", fmt.Errorf("variadic function")
 	}
-	for i := 0; i < sig.Results().Len(); i++ {
-		if sig.Results().At(i).Name() != "" {
+	for i := 0; i < resultTuple.Len(); i++ {
+		if resultTuple.At(i).Name() != "" {
 			return "", fmt.Errorf("%s: unsupported: named results", w.fset.Position(fd.Pos()))
 		}
-		x.results = append(x.results, sig.Results().At(i).Type())
+		x.results = append(x.results, resultTuple.At(i).Type())
+	}
+	if x.recvAcc {
+		x.results = nil // `return l` hands back the receiver = the threaded value
 	}
 	if len(x.results) == 0 && x.acc == nil {
 		return "", fmt.Errorf("%s: unsupported: function without results", w.fset.Position(fd.Pos()))
@@ -1113,6 +1176,9 @@ func (w *xlWorld) translateFunc(repo string, p *xlPkg, f *xlFunc, fd *ast.FuncDe
 			if r.f.RecGroup == f.RecGroup && (f.RecGroup != "" || g == fn) {
 				x.inGroup[g] = true
 				x.used[r.param] = true
+				if r.isDisp {
+					x.dispatch[r.f.Name] = r.param
+				}
 			}
 		}
 		// deterministic order: whitelist order = registration order is not kept in a map, so sort by name
@@ -1134,8 +1200,11 @@ func (w *xlWorld) translateFunc(repo string, p *xlPkg, f *xlFunc, fd *ast.FuncDe
 			return nil, fmt.Errorf("%s: unsupported: control reaches the end of the function without return", w.fset.Position(fd.Pos()))
 		},
 	}
-	body, err := x.block(fd.Body.List, k)
+	body, err := x.block(bodyList, k)
 	if err != nil {
+		return "", err
+	}
+	if err := x.checkAliases(); err != nil {
 		return "", err
 	}
 	if x.fuelIdx != len(f.Fuel) {
@@ -1240,6 +1309,9 @@ func (w *xlWorld) translateFunc(repo string, p *xlPkg, f *xlFunc, fd *ast.FuncDe
 // substParams: `$1`, `$2`, … in a whitelist fuel expression stand for the function's parameters by
 // position, so that renaming a parameter or a local variable does not invalidate the whitelist
 func substParams(s string, names []string) string {
+	if len(names) >= 2 && names[0] == "$0" {
+		s, names = strings.ReplaceAll(s, "$0", names[1]), names[2:]
+	}
 	for i := len(names); i >= 1; i-- {
 		s = strings.ReplaceAll(s, fmt.Sprintf("$%d", i), names[i-1])
 	}
